@@ -204,6 +204,10 @@ func runC05(r *run) {
 	for i := 0; i < n; i++ {
 		c := &encCase{format: "l", lvl: encLevels[g.intn(len(encLevels))], ts: g.encTime(), msg: g.encMessage(true, false),
 			attrs: g.genAttrs(g.intn(9), 3, true, false), caller: g.chance(1, 4), tagW: 3, minW: 36}
+		if i%8 == 3 {
+			// long lists with keys given more than once: the value given last is the pair's value
+			c.attrs = append(c.attrs, g.genWideAttrs(false)...)
+		}
 		if g.chance(1, 8) {
 			// a group member named like the reserved field: its full key (req.time) is an ordinary key
 			t := time.Unix(int64(g.intn(2000000000)), int64(g.intn(1000000000))).In(time.FixedZone("", (g.intn(27)-12)*3600))
